@@ -1,9 +1,11 @@
 #!/usr/bin/env python3
-"""import_seed.py <Cxx> <a|b> <confirm.json>: copy a confirmed seeded change into /verif/seeded/<Cxx>-<a|b>/"""
+"""import_seed.py <Cxx> <a|b> <confirm.json> [src-root [dst-letter]]: copy a confirmed seeded change into /verif/seeded/<Cxx>-<letter>/"""
 import json, os, shutil, sys
 pid, v, cj = sys.argv[1:4]
-src = "/tmp/wt/out/%s/%s" % (pid, v)
-dst = "/verif/seeded/%s-%s" % (pid, v)
+root = sys.argv[4] if len(sys.argv) > 4 else "/tmp/wt/out"
+letter = sys.argv[5] if len(sys.argv) > 5 else v
+src = "%s/%s/%s" % (root, pid, v)
+dst = "/verif/seeded/%s-%s" % (pid, letter)
 c = json.load(open(cj))
 assert c.get("confirmed"), cj
 os.makedirs(dst, exist_ok=True)
